@@ -62,6 +62,7 @@ func checkC13(c *Ctx) {
 	r.Rule("R3.repeater", "repeater-compatible N <= non-repeater N for the same (band, dwell, version, revision, DR)")
 	r.Rule("R3.sfmono", "within one bandwidth and one direction N does not shrink as SF decreases")
 	r.Rule("R4.injective", "no two data-rates usable in the same direction have identical parameters")
+	r.Rule("R6.lookup", "GetDataRateIndex specialised at each (defined DR, supported direction) returns that DR's index (unique by R4)")
 	r.Rule("R5.reference", "default channels, RX2 frequency/DR, DR definitions and TX-power step equal spec/regional.json")
 
 	bands, err := c.Bands()
@@ -242,6 +243,7 @@ func checkC13(c *Ctx) {
 			}
 		}
 		r.OK("R4.injective", id+"/dataRates", P.Rel(cfg.CtorDecl.Pos()), "pairwise comparison of all DR definitions", fmt.Sprintf("%d definitions compared", len(drs)), false)
+		c13Lookup(c, bands, cfg, drs)
 
 		// ---- R5 reference
 		fam, ok := reg.Bands[family(cfg.Canon())]
@@ -267,6 +269,44 @@ func checkC13(c *Ctx) {
 			"repeater N <= non-repeater N", fmt.Sprintf("repeater N=%d, non-repeater N=%d (at %s)", rp.N, np.N, P.Rel(np.Pos)), rp.N != np.N)
 	}
 	c13FallbackKeys(c)
+}
+
+// c13Lookup specialises GetDataRateIndex at every (defined DR, supported direction) point of the evaluated
+// dataRates table and requires the same index back.
+func c13Lookup(c *Ctx, bands *tables.Bands, cfg *tables.BandConfig, drs []tables.DataRate) {
+	r := c.Run
+	fd := cfg.Methods["GetDataRateIndex"]
+	if fd == nil {
+		r.Unknown("R6.lookup", cfg.Short()+"/GetDataRateIndex", "", "method present", "missing")
+		return
+	}
+	pn := paramNames(fd)
+	if len(pn) != 2 {
+		r.Unknown("R6.lookup", cfg.Short()+"/GetDataRateIndex", c.Prog.Rel(fd.Pos()), "two parameters", fmt.Sprint(pn))
+		return
+	}
+	m := cfg.Base.Fields["dataRates"].(*tables.Map)
+	for _, e := range m.Entries {
+		k, _ := tables.AsInt(e.K)
+		for _, up := range []bool{true, false} {
+			fld := "downlink"
+			if up {
+				fld = "uplink"
+			}
+			if ok, _ := tables.AsBool(tables.Field(e.V, fld)); !ok {
+				continue
+			}
+			res, _, ok := bands.EvalMethod(cfg, "GetDataRateIndex", map[string]tables.Value{pn[0]: tables.Bool{V: up}, pn[1]: e.V})
+			key := fmt.Sprintf("%s/GetDataRateIndex(%s,DR%d)", cfg.Short(), fld, k)
+			if !ok || len(res) != 2 {
+				r.Unknown("R6.lookup", key, c.Prog.Rel(fd.Pos()), "lookup inside the evaluable subset", fmt.Sprint(bands.Ev.Diag))
+				continue
+			}
+			got, okg := res[0].(tables.Int)
+			_, errNil := res[1].(tables.Nil)
+			r.Check(okg && errNil && int(got.V) == k, "R6.lookup", key, c.Prog.Rel(fd.Pos()), fmt.Sprintf("%d, nil", k), fmt.Sprintf("%s, %s", tables.Show(res[0]), tables.Show(res[1])), true)
+		}
+	}
 }
 
 func keysOf[V any](m map[string]V) []string {
